@@ -2,7 +2,7 @@
 from __future__ import annotations
 import ast, itertools
 from ..core import expr as X
-from ..core.interp import Interp, Obj, FuncRef, Opaque, RaiseSignal, Frame
+from ..core.interp import PathExplorer, Interp, Obj, FuncRef, Opaque, RaiseSignal, Frame
 from ..core.report import AnalysisError
 from ..frontend.pyfront import Repo
 from .common import need_class, need_func, methods
@@ -95,6 +95,18 @@ def make_interp(repo):
     return Interp(repo, hooks={'global': glob_hook, 'expr': expr_hook, 'call': call_hook}, max_depth=40)
 
 
+def explore_history(history):
+    """history(fork) interprets one mutator history and returns what the objects expose.  A tolerance test on the state (np.allclose(new, current)) may come out either way for
+    values that differ, so every outcome is a history; the one on which a test held although the value moved is the one compared (it is the one that can go stale)."""
+    paths = PathExplorer(max_paths=64).run(history)
+    got, label = paths[0][1], ''
+    for tr_, g_ in paths:
+        if tr_ and any(o_ for (_v, _w, _t, o_) in tr_):
+            got, label = g_, PathExplorer.label(tr_)
+            break
+    return got, label
+
+
 def method(it, obj, name):
     m = it.find_method(obj.cls, name)
     if m is None:
@@ -183,13 +195,15 @@ def run(chk):
             seqs = [(m,) for m in singles] + pairs
             for seq in seqs:
                 nseq += 1
-                it = make_interp(repo)
                 st0 = state_atoms('0')
-                s = build(repo, it, st0, use_ctl, obliq_on)
-                try:
+                final = dict(st0)
+
+                def history(fork, seq=seq, st0=st0, final=final):
+                    it = make_interp(repo)
+                    it.hooks['fork'] = fork
+                    s = build(repo, it, st0, use_ctl, obliq_on)
                     full_init(it, s)
                     call(it, s.world, 'orbit_spin_changed', orbital_freq_changed=True, spin_freq_changed=True, eccentricity_changed=True, obliquity_changed=True)
-                    final = dict(st0)
                     for i, mname in enumerate(seq):
                         key, fn_ = MUTATORS[mname]
                         if key == 'Q+dt':
@@ -200,7 +214,10 @@ def run(chk):
                         newv = X.atom(f'{key}{i + 1}', 'pos' if key in ('e', 'a', 'Q', 'dt') else 'real')
                         fn_(it, s, newv)
                         final[key] = newv
-                    got = exposed(s)
+                    return exposed(s)
+                try:
+                    # a tolerance test on the state (np.allclose(new, current)) may come out either way for values that differ: both outcomes are histories
+                    got, path_label = explore_history(history)
                     it2 = make_interp(repo)
                     sf = build(repo, it2, final, use_ctl, obliq_on)
                     full_init(it2, sf)
@@ -218,7 +235,7 @@ def run(chk):
                         r_, sc = d.residual(a_, b_)
                         bad.append(f'{q.lstrip("_")} differs from a fresh world in the final state (float residual {r_:.3g} on scale {sc:.3g})')
                 inst = f'{model}: after {" ; ".join(seq)} every exposed tidal quantity equals that of a fresh world in the final state'
-                chk.ob('R13.3', inst, not bad, '; '.join(bad[:4]), where_t, key=f'R13.3|{model}|{"+".join(seq)}', method='abstract object graph + GF(p^2) PIT')
+                chk.ob('R13.3', inst, not bad, '; '.join(bad[:4]) + (path_label if bad else ''), where_t, key=f'R13.3|{model}|{"+".join(seq)}', method='abstract object graph + GF(p^2) PIT')
     chk.note_analysed('mutator_sequences', nseq)
     # ---- R13.7 the layered model (per-layer rheology, LayeredTides): same question on a three-layer world
     from . import c13_layered
@@ -230,8 +247,9 @@ def run(chk):
     from . import c13_hostonly
     c13_hostonly.run_hostonly(chk, repo, 'R13.9')
     chk.floor('R13.9', 12)
-    functional_api(chk, repo, d)
-    plumbing(chk, repo)
+    from .solver_whole import guarded
+    guarded(chk, 'C13', lambda: functional_api(chk, repo, d))
+    guarded(chk, 'C13', lambda: plumbing(chk, repo))
     chk.floor('R13.3', 25); chk.floor('R13.5', 1); chk.floor('R13.4', 6); chk.floor('R13.6', 4)      # (R13.2 is a localising lint over routines that assign cached fields directly; history independence itself is R13.3 / R13.7 / R13.9)
     chk.assume('world attached to an orbit with a tidal host; spin not forced synchronous; numeric state arbitrary (symbolic)')
 
